@@ -43,9 +43,12 @@ pub struct Shared {
     pub touched: Vec<u64>,
     /// scratch page handed out for frames without backing store
     pub scratch: Vec<u64>,
+    pub flushctr: u64,
 }
 
 thread_local! {
+    /// flush (instead of ignore) the token the next successful call returns
+    pub static FLUSH_NEXT: std::cell::Cell<bool> = std::cell::Cell::new(false);
     pub static SHARED: RefCell<Option<Shared>> = RefCell::new(None);
 }
 
@@ -165,7 +168,7 @@ fn map_res<S: PageSize>(r: Result<MapperFlush<S>, MapToError<S>>) -> CallRes {
     match r {
         Ok(fl) => {
             let p = fl.page().start_address().as_u64();
-            fl.ignore();
+            if FLUSH_NEXT.with(|f| f.get()) { fl.flush() } else { fl.ignore() }
             CallRes { k: "Ok", page: p, frame: 0 }
         }
         Err(MapToError::FrameAllocationFailed) => CallRes { k: "FrameAllocationFailed", page: 0, frame: 0 },
@@ -177,7 +180,7 @@ fn unmap_res<S: PageSize>(r: Result<(PhysFrame<S>, MapperFlush<S>), UnmapError>)
     match r {
         Ok((f, fl)) => {
             let p = fl.page().start_address().as_u64();
-            fl.ignore();
+            if FLUSH_NEXT.with(|f| f.get()) { fl.flush() } else { fl.ignore() }
             CallRes { k: "Ok", page: p, frame: f.start_address().as_u64() }
         }
         Err(UnmapError::ParentEntryHugePage) => CallRes { k: "ParentEntryHugePage", page: 0, frame: 0 },
@@ -189,7 +192,7 @@ fn upd_res<S: PageSize>(r: Result<MapperFlush<S>, FlagUpdateError>) -> CallRes {
     match r {
         Ok(fl) => {
             let p = fl.page().start_address().as_u64();
-            fl.ignore();
+            if FLUSH_NEXT.with(|f| f.get()) { fl.flush() } else { fl.ignore() }
             CallRes { k: "Ok", page: p, frame: 0 }
         }
         Err(FlagUpdateError::PageNotMapped) => CallRes { k: "PageNotMapped", page: 0, frame: 0 },
@@ -199,7 +202,7 @@ fn upd_res<S: PageSize>(r: Result<MapperFlush<S>, FlagUpdateError>) -> CallRes {
 fn setf_res(r: Result<x86_64::structures::paging::mapper::MapperFlushAll, FlagUpdateError>) -> CallRes {
     match r {
         Ok(fl) => {
-            fl.ignore();
+            if FLUSH_NEXT.with(|f| f.get()) { fl.flush_all() } else { fl.ignore() }
             CallRes { k: "Ok", page: 0, frame: 0 }
         }
         Err(FlagUpdateError::PageNotMapped) => CallRes { k: "PageNotMapped", page: 0, frame: 0 },
@@ -305,6 +308,10 @@ pub fn exec<M: AllMapper>(m: &mut M, w: &mut World, op: &Op, out: &mut Out) -> &
     let mut e;
     let mut kind: &'static str = "";
     crate::trap::MODE.fetch_or(crate::trap::STRAY, std::sync::atomic::Ordering::SeqCst);
+    // a third of the calls flush the token they get (trapped invlpg / mov cr3)
+    let do_flush = with(|sh| { sh.flushctr = sh.flushctr.wrapping_mul(6364136223846793005).wrapping_add(1442695040888963407); (sh.flushctr >> 33) % 3 == 0 });
+    FLUSH_NEXT.with(|f| f.set(do_flush));
+    let _ = crate::cpu::drain();
     match op {
         Op::Map { s, page, frame, f, pf, how, answers } => {
             al.answers = answers.clone();
@@ -403,7 +410,9 @@ pub fn exec<M: AllMapper>(m: &mut M, w: &mut World, op: &Op, out: &mut Out) -> &
     crate::trap::MODE.fetch_and(!crate::trap::STRAY, std::sync::atomic::Ordering::SeqCst);
     let faults = crate::trap::take_strays();
     let fills = crate::trap::take_mmu();
-    let _ = crate::cpu::drain(); // mov-from-cr3 etc. are not part of these events
+    FLUSH_NEXT.with(|f| f.set(false));
+    // instructions executed by a token flush (invlpg; mov from/to cr3)
+    let fl_ins: Vec<crate::cpu::Instr> = crate::cpu::drain().into_iter().filter(|i| i.m == crate::cpu::M_INVLPG || i.m == crate::cpu::M_MOV_TO_CR || i.m == crate::cpu::M_MOV_FROM_CR).collect();
     let allocated: Vec<u64> = al.log.iter().filter_map(|x| *x).collect();
     let (diff, touched, strays) = with(|sh| {
         let d = sh.pm.diff();
@@ -478,7 +487,10 @@ pub fn exec<M: AllMapper>(m: &mut M, w: &mut World, op: &Op, out: &mut Out) -> &
         .words("touched", &tv)
         .words("stray", &strays)
         .raw("dealloc", &dl)
-        .raw("mmu", &mj);
+        .raw("mmu", &mj)
+        .n("flushed", do_flush as i64)
+        .w("cr3", crate::cpu::CR[3].load(std::sync::atomic::Ordering::SeqCst))
+        .raw("fl", &crate::cpu::instrs_json(&fl_ins));
     out.emit(e);
     // bookkeeping of the pool: allocated frames leave it, freed frames come back (re-junked)
     w.free.retain(|f| !allocated.contains(f));
@@ -780,6 +792,7 @@ pub fn install(st: &Setup) -> bool {
                 offset: 0,
                 touched: Vec::new(),
                 scratch: vec![0u64; 1024],
+                flushctr: 0x1234_5678,
             })
         });
     }
